@@ -1,8 +1,26 @@
 """Source of truth for MANIFEST.json (run: python -m vlib.mkmanifest)."""
 
-REPO_FIX_COMMITS = ["04f98b2", "9ce180e", "cfc2ed2", "1d8dc7e", "8ef3efb", "a7c5d9c", "2fb9873", "812fbc2", "343713a"]
+REPO_FIX_COMMITS = ["04f98b2", "9ce180e", "cfc2ed2", "1d8dc7e", "8ef3efb", "a7c5d9c", "2fb9873", "812fbc2", "343713a", "2036f84", "8402cd8", "1e36e27", "ed92c78"]
 
 CHECKS = {
+    "C10": {
+        "technique": "exhaustive single-position splice of a hostile alphabet into a request template + Hypothesis-generated requests at three entry points on an in-memory socket; oracle: dichotomy (raised and zero bytes written | independent structural wire reader consumes the whole stream as exactly one request equal to the requested parts), RFC 9113 reference predicate for HTTP/2 header validity",
+        "text": "Every alphabet symbol is spliced at every position of method, URL parts, header names and values and generated mixes are sent through HTTPConnection.request, HTTPConnectionPool.urlopen (relative and absolute URL) and PoolManager.request; everything the sockets received is re-read by a structural parser written for this work and compared field by field with what was asked; HTTP2Connection.putheader is compared with an RFC 9113 validity predicate over exhaustive short names/values.",
+        "note": "Trusts vlib/reqwire.py and vlib/fakenet.py. Target equality is metamorphic (percent-decoding equal, only RFC 3986 characters), not a re-implementation of the encoder.",
+        "design_ref": "DESIGN.md section 4, C10",
+    },
+    "C11": {
+        "technique": "bounded-exhaustive product body kind x size x method x chunked flag x caller framing x attempt history + Hypothesis mixes on an in-memory scripted server; oracle: independent de-framing of every attempt compared with reference body bytes, first attempt vs every re-send",
+        "text": "Each case sends one body of one of 16 kinds through a pool or a PoolManager against a scripted sequence of resets, 503s, redirects and refusals; every attempt that reached the server is de-framed independently and its framing choice and payload are compared with the reference bytes of the body and with the first attempt.",
+        "note": "Trusts vlib/reqwire.py, vlib/servers.py. Known finding KF-C11-oneshot is excluded by signature (one-shot body re-sent exactly empty) and counted.",
+        "design_ref": "DESIGN.md section 4, C11",
+    },
+    "C12": {
+        "technique": "Hypothesis-generated and bounded-exhaustive (payload, framing, coding stack, segmentation, read-call sequence + draining tail) cases over real http.client responses on an in-memory socket; oracle: round trip against the generator's own payload encoded by stdlib/zstandard compressors, size bounds per call",
+        "text": "Responses are built from a payload by independent encoders (zlib, gzip, zstandard, chunked framing) and delivered in generated segment sizes; generated sequences of read/read1/readinto/stream/read_chunked/iteration calls with an explicit decode_content are run and the concatenation, per-call size bounds, end-of-body behaviour, preloaded .data and tell() are compared with the payload.",
+        "note": "Trusts vlib/respgen.py encoders and vlib/fakenet.py. Known finding KF-C12-mix (reader-family switch on chunked bodies) is excluded by construction and counted.",
+        "design_ref": "DESIGN.md section 4, C12",
+    },
     "C14": {
         "technique": "bounded-exhaustive string enumeration + Hypothesis grammar/unicode generation; oracles: totality, normal-form predicates, idempotence round-trip, differential against an independent RFC 3986 splitter, CPU-time scaling",
         "text": "Every string up to length 5 (quick) / 6 (thorough) over a 13-symbol delimiter alphabet, bare and behind 'http://', plus tens of thousands of grammar-built hostile URLs and unicode strings, are parsed and compared with an independent reading; running time is measured on 26 repetition shapes up to 1e5 characters. Exploration: absence is shown only inside those bounds.",
